@@ -701,7 +701,7 @@ def extract_fn(src, spec, unit_rules):
         has_inputs = len(item["inputs"]) > 0
         ed.insert(item["paren"][1] - 1, (", " if has_inputs else "") + spec["ghost_params"], "ghost")
     for pname, newty in spec.get("retype_params", {}).items():
-        ps = [p for p in item["inputs"] if not p.get("self") and p.get("pat") == pname]
+        ps = [p for p in item["inputs"] if not p.get("self") and p.get("pat") in (pname, "mut" + pname)]
         if not ps:
             raise LostAnchor(f"parameter `{pname}` of {spec['path']}")
         ed.replace(ps[0]["ty"][0], ps[0]["ty"][1], newty, "R7")
@@ -777,7 +777,7 @@ def extract_fn(src, spec, unit_rules):
         elif kind == "assign":
             c = [n for n in nodes_of(item, "assign") if n["left_text"] == sel]
         elif kind == "if":
-            c = nodes_of(item, "if")
+            c = [n for n in nodes_of(item, "if") if sel is None or sel.replace(" ", "") in src.text(*n["cond"]).replace(" ", "").replace("\n", "")]
         elif kind == "match":
             c = nodes_of(item, "match")
         elif kind == "arm":
@@ -801,6 +801,19 @@ def extract_fn(src, spec, unit_rules):
         if kind in ("if", "match") and pos_kind == "then_start":
             ed.insert(n["then"][0] + 1, "\n" + txt + "\n", "ghost")
             continue
+        if kind == "if" and pos_kind == "then_end":
+            ed.insert(n["then"][1] - 1, "\n" + txt + "\n", "ghost")
+            continue
+        if kind == "if" and pos_kind == "else_end":
+            if "else" not in n or src.data[n["else"][1] - 1:n["else"][1]] != b"}":
+                raise LostAnchor(f"else block of if `{sel}` in {spec['path']}")
+            ed.insert(n["else"][1] - 1, "\n" + txt + "\n", "ghost")
+            continue
+        if kind == "if" and pos_kind == "else_start":
+            if "else" not in n or src.data[n["else"][0]:n["else"][0] + 1] != b"{":
+                raise LostAnchor(f"else block of if `{sel}` in {spec['path']}")
+            ed.insert(n["else"][0] + 1, "\n" + txt + "\n", "ghost")
+            continue
         # statement-level position: walk up to the enclosing statement-like node
         target = n
         if kind in ("call", "methodcall"):
@@ -809,6 +822,9 @@ def extract_fn(src, spec, unit_rules):
                 if an["kind"] in ("let", "assign"):
                     stmt = an
                     break
+                if an["kind"] == "try" and an["inner"][1] <= an["range"][1] and an["range"][0] <= n["range"][0]:
+                    stmt = an  # `call(..)?` used as a statement: keep climbing for a let/assign
+                    continue
                 if an["kind"] in ("block", "loop", "arm", "closure", "if", "match"):
                     break
             if stmt is not None:
